@@ -105,3 +105,127 @@ Theorem C09_delta_empty_value_is_not_erase :
   delta_encode [(ex_key 2, Some [])] <> delta_encode [(ex_key 2, None)].
 Proof. exact DeltaCodec_proofs.ex_empty_value_is_not_erase. Qed.
 Print Assumptions C09_delta_empty_value_is_not_erase.
+
+(* ------------------------------------------------------------------------------------------ *)
+(* The BOOKKEEPING of the rollback log (nomt/src/rollback/mod.rs over nomt/src/seglog/mod.rs),   *)
+(* mirrored line by line in RbBook.v: in-memory log + pending truncation, the segmented log's live *)
+(* range and what is physically in the segment files, the manifest range written at every sync    *)
+(* before the pruning, Rollback::read at open.  Three defects lived here (F7a, F7b, N8); the       *)
+(* extracted model is replayed on every history of the rbtrace engine and compared, sync by sync,  *)
+(* with the real manifest, the real segment files and the outcome of every rollback.               *)
+From Coq Require Import Arith.
+From Nomt Require Store RbBook RbBook_proofs.
+
+(* For every max_rollback_log_len >= 1, every segment size, every history of commits (records of any
+   size), rollbacks (any n) and reopenings, each followed by its sync as the code does: every operation
+   has the outcome of the specification (a rollback is refused iff the specification refuses it; nothing
+   ever fails), and the in-memory log is commit for commit the specification's bounded stack of
+   snapshots - the number of rollbacks that can be served is its length. *)
+Theorem C09_rbbook_refines : forall maxlen segsz ops, (1 <= maxlen)%nat ->
+  forall s outs h c souts,
+  RbBook.b_run RbBook.VCur (RbBook.b_init maxlen segsz) ops = (s, outs) ->
+  RbBook.sp_run maxlen ([], 0%N) ops = ((h, c), souts) ->
+  outs = souts /\ RbBook.b_abs s = h /\ length (RbBook.b_mem s) = length h /\ RbBook.b_tag s = c /\
+  RbBook_proofs.binv s.
+Proof. exact RbBook_proofs.rbbook_refines. Qed.
+Print Assumptions C09_rbbook_refines.
+
+(* the same against Store.v itself: outcomes of Store.rollback, and length (hist) *)
+Theorem C09_rbbook_refines_store : forall maxlen segsz sops, (1 <= maxlen)%nat ->
+  forall s outs st souts,
+  RbBook.b_run RbBook.VCur (RbBook.b_init maxlen segsz) (map RbBook_proofs.bop_of sops) = (s, outs) ->
+  RbBook_proofs.store_run (Store.init (Some maxlen)) sops = (st, souts) ->
+  outs = souts /\ length (RbBook.b_mem s) = length (Store.hist st) /\ RbBook_proofs.binv s.
+Proof. exact RbBook_proofs.rbbook_refines_store. Qed.
+Print Assumptions C09_rbbook_refines_store.
+
+(* no panic in prune_oldest, no "Failed to find the last live record in the head segment", no failure of
+   seglog::open - in no history *)
+Theorem C09_rbbook_never_fails : forall maxlen segsz ops e, (1 <= maxlen)%nat ->
+  ~ In (RbBook.OFail e) (snd (RbBook.b_run RbBook.VCur (RbBook.b_init maxlen segsz) ops)).
+Proof. exact RbBook_proofs.rbbook_never_fails. Qed.
+Print Assumptions C09_rbbook_never_fails.
+
+(* after any history: nothing pending, the log bounded, every delta in memory physically present under its
+   record id (a rollback the specification allows finds every record it needs), the manifest's range
+   contains the in-memory log, and a reopening loads exactly the in-memory log again *)
+Theorem C09_rbbook_reachable : forall maxlen segsz ops, (1 <= maxlen)%nat ->
+  let s := fst (RbBook.b_run RbBook.VCur (RbBook.b_init maxlen segsz) ops) in
+  RbBook.b_pend s = None /\ (length (RbBook.b_mem s) <= maxlen)%nat /\
+  (forall x, In x (RbBook.b_mem s) ->
+     exists r, In r (RbBook.phys (RbBook.l_segs (RbBook.b_log s))) /\ RbBook.proj r = x) /\
+  ((RbBook.b_mem s = [] /\ RbBook.b_man s = (0, 0)%N) \/
+   (fst (RbBook.b_man s) <> 0%N /\
+    forall x, In x (RbBook.b_mem s) -> (fst (RbBook.b_man s) <= fst x <= snd (RbBook.b_man s))%N)) /\
+  (exists s', RbBook.b_reopen RbBook.VCur s = RbBook.BOk s' /\ RbBook.b_mem s' = RbBook.b_mem s).
+Proof. exact RbBook_proofs.rbbook_reachable. Qed.
+Print Assumptions C09_rbbook_reachable.
+
+(* a commit whose delta has left the log is in the log after no continuation of the history (record ids are
+   reused after the log was emptied, so this is stated on the commits, [b_tag] = number of commits so far) *)
+Theorem C09_rbbook_no_revival : forall maxlen segsz ops1 ops2, (1 <= maxlen)%nat ->
+  forall s1 o1 s2 o2,
+  RbBook.b_run RbBook.VCur (RbBook.b_init maxlen segsz) ops1 = (s1, o1) ->
+  RbBook.b_run RbBook.VCur (RbBook.b_init maxlen segsz) (ops1 ++ ops2) = (s2, o2) ->
+  forall t, (t < RbBook.b_tag s1)%N -> ~ In t (map snd (RbBook.b_mem s1)) -> ~ In t (map snd (RbBook.b_mem s2)).
+Proof. exact RbBook_proofs.rbbook_no_revival. Qed.
+Print Assumptions C09_rbbook_no_revival.
+
+(* the lock-step checker that refutes the pre-fix variants accepts every history of the current code *)
+Theorem C09_rbbook_conforms : forall maxlen segsz ops, (1 <= maxlen)%nat ->
+  RbBook.conforms0 RbBook.VCur maxlen segsz ops = true.
+Proof. exact RbBook_proofs.rbbook_conforms. Qed.
+Print Assumptions C09_rbbook_conforms.
+
+(* the three repaired defects: the code with ONE repair reverted is refuted by a shortest history
+   (no shorter one over commits of 1 / 3 blocks, rollback 1 / 2 / 3, reopen; max_rollback_log_len 1..3;
+   segments of one block, two blocks, never full) *)
+Theorem C09_rbbook_preF7a_refuted :
+  RbBook.conforms0 RbBook.VPreF7a 1 4096 RbBook_proofs.w_f7a = false /\
+  snd (RbBook.b_run RbBook.VPreF7a (RbBook.b_init 1 4096) RbBook_proofs.w_f7a) =
+    [RbBook.OOk; RbBook.OOk; RbBook.OFail RbBook.ETruncNotFound] /\
+  RbBook.conforms0 RbBook.VCur 1 4096 RbBook_proofs.w_f7a = true /\
+  RbBook_proofs.all_conform RbBook.VPreF7a 0 = true /\ RbBook_proofs.all_conform RbBook.VPreF7a 1 = true /\
+  RbBook_proofs.all_conform RbBook.VPreF7a 2 = true.
+Proof. exact RbBook_proofs.preF7a_refuted. Qed.
+Print Assumptions C09_rbbook_preF7a_refuted.
+
+Theorem C09_rbbook_preF7a_revives_pruned_record :
+  snd (RbBook.b_run RbBook.VPreF7a (RbBook.b_init 1 1000000) RbBook_proofs.w_f7a_revive) =
+    [RbBook.OOk; RbBook.OOk; RbBook.OOk; RbBook.OOk; RbBook.OOk] /\
+  snd (RbBook.sp_run 1 ([], 0%N) RbBook_proofs.w_f7a_revive) =
+    [RbBook.OOk; RbBook.OOk; RbBook.OOk; RbBook.OOk; RbBook.ORefused] /\
+  snd (RbBook.b_run RbBook.VCur (RbBook.b_init 1 1000000) RbBook_proofs.w_f7a_revive) =
+    [RbBook.OOk; RbBook.OOk; RbBook.OOk; RbBook.OOk; RbBook.ORefused].
+Proof. exact RbBook_proofs.preF7a_revives_pruned_record. Qed.
+Print Assumptions C09_rbbook_preF7a_revives_pruned_record.
+
+Theorem C09_rbbook_preF7b_refuted :
+  RbBook.conforms0 RbBook.VPreF7b 1 1000000 RbBook_proofs.w_f7b = false /\
+  length (RbBook.b_mem (fst (RbBook.b_run RbBook.VPreF7b (RbBook.b_init 1 1000000) RbBook_proofs.w_f7b))) = 2 /\
+  snd (RbBook.b_run RbBook.VPreF7b (RbBook.b_init 1 1000000) (RbBook_proofs.w_f7b ++ [RbBook.BRollback 2])) =
+    [RbBook.OOk; RbBook.OOk; RbBook.OOk; RbBook.OOk] /\
+  snd (RbBook.sp_run 1 ([], 0%N) (RbBook_proofs.w_f7b ++ [RbBook.BRollback 2])) =
+    [RbBook.OOk; RbBook.OOk; RbBook.OOk; RbBook.ORefused] /\
+  RbBook.conforms0 RbBook.VCur 1 1000000 (RbBook_proofs.w_f7b ++ [RbBook.BRollback 2]) = true /\
+  RbBook_proofs.all_conform RbBook.VPreF7b 0 = true /\ RbBook_proofs.all_conform RbBook.VPreF7b 1 = true /\
+  RbBook_proofs.all_conform RbBook.VPreF7b 2 = true.
+Proof. exact RbBook_proofs.preF7b_refuted. Qed.
+Print Assumptions C09_rbbook_preF7b_refuted.
+
+Theorem C09_rbbook_preN8_refuted :
+  RbBook.conforms0 RbBook.VPreN8 1 4096 RbBook_proofs.w_n8 = false /\
+  snd (RbBook.b_run RbBook.VPreN8 (RbBook.b_init 1 4096) RbBook_proofs.w_n8) =
+    [RbBook.OOk; RbBook.OOk; RbBook.OOk; RbBook.OFail RbBook.ETruncNotFound] /\
+  RbBook.conforms0 RbBook.VCur 1 4096 RbBook_proofs.w_n8 = true /\
+  RbBook_proofs.all_conform RbBook.VPreN8 0 = true /\ RbBook_proofs.all_conform RbBook.VPreN8 1 = true /\
+  RbBook_proofs.all_conform RbBook.VPreN8 2 = true /\ RbBook_proofs.all_conform RbBook.VPreN8 3 = true.
+Proof. exact RbBook_proofs.preN8_refuted. Qed.
+Print Assumptions C09_rbbook_preN8_refuted.
+
+(* the hypothesis 1 <= max_rollback_log_len is necessary: with 0 the sync of the first commit panics in prune_oldest *)
+Theorem C09_rbbook_maxlen_zero_commit_fails :
+  snd (RbBook.b_run RbBook.VCur (RbBook.b_init 0 4096) [RbBook.BCommit 1]) =
+    [RbBook.OFail RbBook.EPruneOldestAboveEnd].
+Proof. exact RbBook_proofs.maxlen_zero_commit_fails. Qed.
+Print Assumptions C09_rbbook_maxlen_zero_commit_fails.
